@@ -130,6 +130,7 @@ func (c *FnCtx) step(frame *Frame, st *State, in ssa.Instruction) (forkFn, bool)
 		// ghost: sent(ch) counts the messages sent on a channel (blocking and buffering are not
 		// modelled: a send is treated as completing)
 		ch := c.val(st, x.Chan)
+		c.checkCallSiteAsserts(frame, st, x, "builtin.send")
 		name := arrName("S", "sent", "", "Int")
 		arr := c.heapGet(st.heap, name)
 		st.assume("(>= " + sel(arr, ch.S) + " 0)")
